@@ -421,7 +421,9 @@ func c13Lists(n, maxLen int, yield func([]int) bool) {
 }
 
 var c13SNIs = []string{"a.com", "x.a.com", "y.x.a.com", "b.com", "c.org", "d.org", "A.COM", "a.com.", "",
-	"x.c.org", "z.net", "q.z.net", "s.org", "com", "X.A.COM", "x.a.com."}
+	"x.c.org", "z.net", "q.z.net", "s.org", "com", "X.A.COM", "x.a.com.",
+	// letter case per label position (left-most only, middle, top-level, mixed); the full case alphabet is in selection-case
+	"X.a.com", "x.A.com", "x.a.COM", "y.X.a.Com", "q.Z.net", "C.org"}
 
 var c13ClientALPN = [][]string{nil, {"h2"}, {"http/1.1"}, {"h2", "http/1.1"}, {"foo"}, {"http/1.1", "h2"}, {"foo", "h2"}}
 
